@@ -267,11 +267,39 @@ func (u *Unit) tableObligations(fre, kre *regexp.Regexp) ([]*Obligation, []FuncO
 			}
 			wired = hasRec && hasRouters
 		}
+		// Logger (outermost): passes the request on exactly once and does not write the response itself
+		if lg, _ := p.Members["Logger"].(*ssa.Function); lg != nil && len(lg.AnonFuncs) > 0 {
+			L := lg.AnonFuncs[0]
+			nextCalls, writes := 0, 0
+			for _, b := range L.Blocks {
+				for _, in := range b.Instrs {
+					c, ok := in.(*ssa.Call)
+					if !ok {
+						continue
+					}
+					val := c.Call.Value
+					if uo, ok := val.(*ssa.UnOp); ok {
+						val = uo.X
+					}
+					if fv, ok := val.(*ssa.FreeVar); ok && fv.Name() == "next" {
+						nextCalls++
+					}
+					if cal := c.Call.StaticCallee(); cal != nil && strings.Contains(cal.String(), "fasthttp.RequestCtx).") {
+						switch n := cal.Name(); {
+						case strings.HasPrefix(n, "Set"), strings.HasPrefix(n, "Write"), n == "Error", n == "Redirect", strings.HasPrefix(n, "Reset"), strings.HasPrefix(n, "Send"):
+							writes++
+						}
+					}
+				}
+			}
+			mk("api.table$Recovery", "Logger[calls-next-once]", nextCalls == 1, "the handler returned by Logger calls next(ctx) exactly once")
+			mk("api.table$Recovery", "Logger[no-response-writes]", writes == 0, "Logger does not set status, headers or body itself")
+		}
 		mk("api.table$Recovery", "Recovery[defer-before-next]", deferFirst, "the handler returned by Recovery defers its recovery function first and then calls next(ctx), once")
 		mk("api.table$Recovery", "Recovery[recover-direct]", recoverDirect, "the deferred function itself calls recover() (a recover() inside a helper it calls would not stop the panic)")
 		mk("api.table$Recovery", "Recovery[calls-next-once]", callsNext == 1, "next is called exactly once")
 		mk("api.table$Recovery", "Recovery[wired]", wired, "NewServer builds its handler from routers wrapped in Recovery")
-		fo = append(fo, FuncOut{Name: "api.table$Recovery", Unit: u.Name, HasContract: true, Obligations: 4})
+		fo = append(fo, FuncOut{Name: "api.table$Recovery", Unit: u.Name, HasContract: true, Obligations: 6})
 	}
 	// algoStrMap
 	if g := u.globalByName("algoStrMap"); g != nil && u.internalPkg(g.Pkg) {
@@ -345,6 +373,28 @@ func (u *Unit) jsTableObligations(repo string, fre, kre *regexp.Regexp) ([]*Obli
 	for _, n := range want {
 		mk("main.table$registerFunctions", fmt.Sprintf("global[%s]", n), reg[n] == n, fmt.Sprintf("registerFunctions binds the global %q to the Go function %s (found %q)", n, n, reg[n]))
 	}
+	// main registers the functions and then keeps the module alive (blocks forever) so that they stay callable
+	callsReg, blocks := false, false
+	for _, p := range u.Pkgs {
+		if fn := p.Func("main"); fn != nil && p.Pkg.Name() == "main" {
+			for _, b := range fn.Blocks {
+				for _, in := range b.Instrs {
+					switch x := in.(type) {
+					case *ssa.Call:
+						if cal := x.Call.StaticCallee(); cal != nil && cal.Name() == "registerFunctions" && !blocks {
+							callsReg = true
+						}
+					case *ssa.Select:
+						if len(x.States) == 0 && x.Blocking {
+							blocks = true
+						}
+					}
+				}
+			}
+		}
+	}
+	mk("main.table$registerFunctions", "main[registers]", callsReg, "main calls registerFunctions (before it blocks)")
+	mk("main.table$registerFunctions", "main[stays-alive]", blocks, "main then blocks forever (select {}), so the exported functions remain callable")
 	// JavaScript side
 	data, err := os.ReadFile(repo + "/otp-js/src/index.js")
 	exp := map[string]string{}
@@ -358,5 +408,5 @@ func (u *Unit) jsTableObligations(repo string, fre, kre *regexp.Regexp) ([]*Obli
 		mk("main.table$index.js", fmt.Sprintf("index.js[%s]", n), exp[n] == n, fmt.Sprintf("otp-js/src/index.js exports %s as globalThis.%s (found globalThis.%s)", n, n, exp[n]))
 	}
 	mk("main.table$index.js", "index.js.count", len(exp) == len(want), fmt.Sprintf("index.js exports exactly the five binding functions (found %d)", len(exp)))
-	return out, []FuncOut{{Name: "main.table$registerFunctions", Unit: u.Name, HasContract: true, Obligations: len(want)}, {Name: "main.table$index.js", Unit: u.Name, HasContract: true, Obligations: len(want) + 1}}
+	return out, []FuncOut{{Name: "main.table$registerFunctions", Unit: u.Name, HasContract: true, Obligations: len(want) + 2}, {Name: "main.table$index.js", Unit: u.Name, HasContract: true, Obligations: len(want) + 1}}
 }
